@@ -21,7 +21,8 @@ impl MemcacheBinaryConnection {
     pub fn new(socket: TcpStream, item_size_limit: u32) -> Self {
         // captured while the socket is certainly connected (a reset peer has no peer address)
         #[cfg(memcrs_verif)]
-        let verif_ports = (socket.local_addr().map(|a| a.port() as u64).unwrap_or(0) << 16)
+        let verif_ports = (crate::verif::next_conn_serial() << 32)
+            | (socket.local_addr().map(|a| a.port() as u64).unwrap_or(0) << 16)
             | socket.peer_addr().map(|a| a.port() as u64).unwrap_or(0);
         MemcacheBinaryConnection {
             #[cfg(memcrs_verif)]
@@ -157,7 +158,7 @@ impl MemcacheBinaryConnection {
         }
     }
 
-    /// (local port << 16) | peer port: identifies the connection for the harness
+    /// (serial << 32) | (local port << 16) | peer port: identifies the connection for the harness
     #[cfg(memcrs_verif)]
     pub(crate) fn verif_peer_port(&self) -> u64 {
         self.verif_ports
